@@ -1,6 +1,6 @@
 (* C12 property theorems. Nothing but statements closed by `exact lemma` and Print Assumptions. *)
 From Coq Require Import ZArith NArith List Bool.
-From OG Require Import C12.Model C12.Proofs C12.ProofsParse C12.ProofsSet C12.Gen_Tokens C12.Inst.
+From OG Require Import C12.Model C12.Proofs C12.ProofsParse C12.ProofsSet C12.ProofsLex C12.ProofsLexMain C12.Gen_Tokens C12.Inst.
 Import ListNotations.
 Open Scope N_scope.
 
@@ -18,6 +18,41 @@ Print Assumptions C12_print_parse.
 Theorem C12_print_parse_repo : forall e, canon_v true true e = true -> Inst.parse (print_toks_v true true e) = Some e.
 Proof. exact (fun e => print_parse Inst.prec Inst.isop keywords true true e). Qed.
 Print Assumptions C12_print_parse_repo.
+
+(* LEXING: for all tables that satisfy the (decidable) table condition lex_tables - every operator ParseExpr knows is
+   printed as the text the scanner reads as that operator, cast names / true / false scan as themselves, Inf and NaN are
+   not keywords - and every canonical expression: the scanner run on the printed TEXT (String()) yields exactly the
+   printed token sequence.  Canonical strings/identifiers exclude NUL and CR (the reader maps CR to LF and ends at NUL),
+   canonical regex sources also LF and a trailing backslash. *)
+Theorem C12_scan_print : forall prec isop op_text kws op_of_code ct cf cfield ctag cdistinct nr dr,
+  lex_tables isop op_text kws op_of_code ct cf cfield ctag cdistinct ->
+  forall e, canon prec isop kws nr dr false e = true ->
+  Model.scan kws op_of_code ct cf cfield ctag cdistinct (Model.print_text op_text kws nr dr e) = print_toks nr dr e.
+Proof. exact scan_print. Qed.
+Print Assumptions C12_scan_print.
+
+(* END TO END on text: print with String(), scan, parse with the precedence parser: the same tree *)
+Theorem C12_print_scan_parse : forall prec isop op_text kws op_of_code ct cf cfield ctag cdistinct nr dr,
+  lex_tables isop op_text kws op_of_code ct cf cfield ctag cdistinct ->
+  forall e, canon prec isop kws nr dr false e = true ->
+  Model.parse prec isop (Model.scan kws op_of_code ct cf cfield ctag cdistinct (Model.print_text op_text kws nr dr e)) = Some e.
+Proof. exact print_scan_parse. Qed.
+Print Assumptions C12_print_scan_parse.
+
+(* the repository's live tables (Gen_Tokens.v, regenerated on every run) satisfy the table condition *)
+Theorem C12_lex_tables_repo :
+  lex_tables Inst.isop Inst.op_text keywords Inst.op_of_code code_true code_false code_field code_tag code_distinct.
+Proof. apply lex_tables_reflect. vm_compute. reflexivity. Qed.
+Print Assumptions C12_lex_tables_repo.
+
+(* hence, for the live tables and either printer variant *)
+Theorem C12_print_scan_parse_repo : forall nr dr e, canon_v nr dr e = true ->
+  Inst.parse (Inst.scan (print_text_v nr dr e)) = Some e.
+Proof.
+  exact (fun nr dr => print_scan_parse Inst.prec Inst.isop Inst.op_text keywords Inst.op_of_code code_true code_false
+           code_field code_tag code_distinct nr dr C12_lex_tables_repo).
+Qed.
+Print Assumptions C12_print_scan_parse_repo.
 
 (* the insertion algorithm of ParseExpr rebuilds every tree whose parenthesisation agrees with the table *)
 Theorem C12_spine_rebuild : forall prec e, pcanon prec e = true -> build prec (fst (spine e)) (snd (spine e)) = e.
